@@ -209,6 +209,7 @@ class EMG(Block):
             and self.startTime == other.startTime
             and self.nSamples == other.nSamples
             and len(self._signals) == len(other._signals)
+            and np.array_equal(self._emgMap, other._emgMap)
             and all(s1 == s2 for s1, s2 in zip(self._signals, other._signals))
         )
 
